@@ -58,14 +58,25 @@ def _char_class_of_escape_pattern(pattern: str) -> set[str]:
 
 
 def run(repo: Repo, rep: Report) -> None:
-    rep.extra["explanation"] = EXPLANATION
+    # every rule is a layer of its own (vlib.core.layer): a rule that loses its anchor - on the tree or on one of its equivalent views - is
+    # recorded against that rule alone and the others are still judged
+    from vlib.core import layer as _layer
 
+    rep.extra["explanation"] = EXPLANATION
+    _layer(rep, rule_a_list_walks, repo)
+    _layer(rep, lambda repo_, rep_: escape_table_rules(repo_, rep_, "C03.b-escape-tables-agree"), repo)
+    _layer(rep, rule_d_readers_keep_falsy, repo)
+    _layer(rep, rule_c_xmlns, repo)
+    _layer(rep, mark_before_descend, repo)
+
+
+def rule_a_list_walks(repo: Repo, rep: Report) -> None:
     # ------------------------------------------------------------------ (a)
     rep.rule("C03.a-list-walk-terminates",
              "every while-loop in rdflib/plugins/serializers, rdflib/collection.py and Graph.items whose cursor is "
              "reassigned from its own rdf:rest is bounded (counter), guarded (visited set whose hit leaves the loop), "
              "consumes the link, or lives in a function whose every call site is inside `if <validator>(same arg):` "
-             "with a guarded validator", floor=8)
+             "with a guarded validator (the `if` in the caller, or - the list head being handed down as a parameter - in every caller of the caller)", floor=8)
     scope = []
     for name, mod in repo.modules.items():
         if name.startswith("rdflib.plugins.serializers.") or name == "rdflib.collection":
@@ -85,7 +96,8 @@ def run(repo: Repo, rep: Report) -> None:
             rep.ob("C03.a-list-walk-terminates", mod, q, "while %s: ... %s = rdf:rest of %s" % (norm(loop.test), cur, cur), why is not None,
                    why or "no counter, visited-set guard, link removal or guarded validator: serialisation never ends on a cyclic rdf:rest chain", node=loop)
 
-    escape_table_rules(repo, rep, "C03.b-escape-tables-agree")
+
+def rule_d_readers_keep_falsy(repo: Repo, rep: Report) -> None:
     # (d) readers never drop a falsy value
     from vlib import truthy as _tr
     rep.rule("C03.d-readers-keep-falsy-values",
@@ -95,10 +107,12 @@ def run(repo: Repo, rep: Report) -> None:
     for m, f in jp.methods("Parser").items():
         _tr.scan(repo, rep, "C03.d-readers-keep-falsy-values", jp, f, "Parser." + m)
         rep.analysed("rdflib/plugins/parsers/jsonld.py:Parser." + m)
+
+
+def rule_c_xmlns(repo: Repo, rep: Report) -> None:
     from checks.c05 import xmlns_agreement
 
     xmlns_agreement(repo, rep, "C03.c-rdfxml-prefixes-declared-as-used")
-    mark_before_descend(repo, rep)
 
 
 def mark_before_descend(repo: Repo, rep: Report) -> None:
@@ -132,8 +146,9 @@ def mark_before_descend(repo: Repo, rep: Report) -> None:
 
 def escape_table_rules(repo: Repo, rep: Report, RULE: str) -> None:
     rep.rule(RULE,
-             "string escape chains of the N-Triples writer (nt._quote_encode) and the Turtle-family writer "
-             "(Literal._quote_encode) replace the backslash first, cover the raw-forbidden characters of their quoting "
+             "the string escape maps of the N-Triples writer (the function NTSerializer.serialize reaches that rewrites characters by a constant map: "
+             "a chain of str.replace, applied in sequence, or a str.translate table / per-character lookup, applied in one pass) and of the Turtle-family writer "
+             "(Literal._quote_encode) double the backslash before any escape is written (or in the same pass), cover the raw-forbidden characters of their quoting "
              "form, and emit only escapes that the readers' table (compat._string_escape_map + the ECHAR class of "
              "_turtle_escape_pattern, ntriples.r_quot) decodes to the original character", floor=8)
     compat = repo.mod("rdflib.compat")
@@ -163,15 +178,17 @@ def escape_table_rules(repo: Repo, rep: Report, RULE: str) -> None:
     rep.ob(RULE, ntp, "r_quot", "validating N-Triples ECHAR class == decode table keys", rq == set(emap),
            "agree" if rq == set(emap) else "r_quot class %s vs table keys %s" % (sorted(rq), sorted(emap)), node=ntp.tree)
 
-    def check_chain(mod, q, chain: list[tuple[str, str]], must: set[str], form: str, node):
+    def check_chain(mod, q, chain: list[tuple[str, str]], must: set[str], form: str, node, simultaneous: bool = False):
+        """`chain`: (character(s), what is written for them) in the order of application; `simultaneous`: applied in one pass over the
+        string (str.translate, a per-character table), so that no replacement reads what another one wrote"""
         eff = [(a, b) for a, b in chain]
         srcs = [a for a, _ in eff]
         # backslash first among the replacements that introduce backslashes
         intro = [i for i, (a, b) in enumerate(eff) if "\\" in b]
         bs = [i for i, (a, b) in enumerate(eff) if a == "\\"]
-        ok_first = bool(bs) and (not intro or bs[0] == min(intro))
+        ok_first = bool(bs) and (simultaneous or not intro or bs[0] == min(intro))
         rep.ob(RULE, mod, q, "%s: backslash escaped first (%s)" % (form, [a for a, _ in eff]), ok_first,
-               "the backslash is doubled before any escape is introduced" if ok_first else
+               ("the backslash is doubled in the same pass as the escapes are written: no escape is escaped again" if simultaneous else "the backslash is doubled before any escape is introduced") if ok_first else
                "an escape is introduced before the backslash is doubled (or the backslash is never escaped): escapes get double-escaped / raw backslashes corrupt the string", node=node)
         missing = must - set(srcs)
         rep.ob(RULE, mod, q, "%s: covers %s" % (form, sorted(must)), not missing,
@@ -188,18 +205,20 @@ def escape_table_rules(repo: Repo, rep: Report, RULE: str) -> None:
             rep.ob(RULE, mod, q, "%s: %r -> %r" % (form, a, b), ok,
                    "decoded back to %r by the reader table" % a if ok else "the reader does not decode %r back to %r" % (b, a), node=node)
 
+    # the N-Triples writer: the function(s) that NTSerializer.serialize reaches in its module and that rewrite characters by a constant map
+    # (a chain of str.replace, a str.translate table, a per-character lookup) - found by what they do, whatever they are called
+    from vlib.h_c03 import escape_maps, module_call_closure
+
     ntw = repo.mod("rdflib.plugins.serializers.nt")
-    f = ntw.func("_quote_encode")
-    rep.analysed("rdflib/plugins/serializers/nt.py:_quote_encode")
-    chains = []
-    for n in ast.walk(f):
-        base, ch = _replace_chain(n)
-        if len(ch) >= 2:
-            chains.append((n, base, ch))
-    if not chains:
-        raise AnalysisError("nt._quote_encode: no .replace chain found")
-    n, base, ch = max(chains, key=lambda x: len(x[2]))
-    check_chain(ntw, "_quote_encode", ch, {"\\", "\n", "\r", '"'}, 'N-Triples "..."', n)
+    found = []
+    for q in module_call_closure(ntw, ["NTSerializer.serialize"]):
+        for em in escape_maps(ntw, ntw.defs[q]):
+            found.append((q, em))
+    if not found:
+        raise AnalysisError("nt: no escape map (chain of str.replace / str.translate table) found in what NTSerializer.serialize calls")
+    q, em = max(found, key=lambda x: len(x[1].pairs))
+    rep.analysed("rdflib/plugins/serializers/nt.py:" + q)
+    check_chain(ntw, q, em.pairs, {"\\", "\n", "\r", '"'}, 'N-Triples "..."', em.node, simultaneous=em.simultaneous)
 
     term = repo.mod("rdflib.term")
     f = term.func("Literal._quote_encode")
@@ -213,32 +232,24 @@ def escape_table_rules(repo: Repo, rep: Report, RULE: str) -> None:
             sel = s
     if sel is None:
         raise AnalysisError("Literal._quote_encode: `if '\\n' in self` selector not found")
-    # single-line form: chains in orelse; replacements of "\n" are dead there (folded away)
-    best = None
-    for n in [x for s in sel.orelse for x in ast.walk(s)]:
-        base, ch = _replace_chain(n)
-        if len(ch) >= 2 and (best is None or len(ch) > len(best[1])):
-            best = (n, ch)
-    if best is None:
-        raise AnalysisError("Literal._quote_encode: single-line replace chain not found")
-    ch = [(a, b) for a, b in best[1] if a != "\n"]  # "\n" not in self on this branch: no-op
-    check_chain(term, "Literal._quote_encode", ch, {"\\", "\r", '"'}, 'Turtle "..." (no newline in value)', best[0])
-    # triple-quoted form: sequence of statements; collect replace pairs in statement order
-    pairs = []
-    for s in sel.body:
-        for n in ast.walk(s):
-            if isinstance(n, ast.Call) and isinstance(n.func, ast.Attribute) and n.func.attr == "replace" and len(n.args) == 2 \
-                    and all(isinstance(a, ast.Constant) and isinstance(a.value, str) for a in n.args):
-                pairs.append((n.lineno, n.col_offset, n.args[0].value, n.args[1].value, n))
-    # order of application: by statement order, then inner-most first within a chain (col order is outer-first; use chain extraction)
+    # single-line form: chains in what runs when the test is false - the else branch, or, when the triple-quoted branch never falls
+    # through, the statements that follow the `if`; replacements of "\n" are dead there (folded away)
+    from vlib.h_c03 import terminates
+
+    single_line = list(sel.orelse)
+    if not single_line and terminates(sel.body):
+        single_line = f.body[f.body.index(sel) + 1:]
+    maps = escape_maps(term, f, within=single_line)
+    if not maps:
+        raise AnalysisError("Literal._quote_encode: single-line escape map (chain of str.replace / str.translate table) not found")
+    best = max(maps, key=lambda m_: len(m_.pairs))
+    ch = [(a, b) for a, b in best.pairs if a != "\n"]  # "\n" not in self on this branch: no-op
+    check_chain(term, "Literal._quote_encode", ch, {"\\", "\r", '"'}, 'Turtle "..." (no newline in value)', best.node, simultaneous=best.simultaneous)
+    # triple-quoted form: a sequence of statements; the replacements in the order in which they are applied (statement order, within a chain
+    # innermost first; a one-pass table counts as its replacements with the backslash first)
     seq: list[tuple[str, str]] = []
-    for s in sel.body:
-        best_chain = []
-        for n in ast.walk(s):
-            base, chn = _replace_chain(n)
-            if len(chn) > len(best_chain):
-                best_chain = chn
-        seq += best_chain
+    for m_ in escape_maps(term, f, min_chain=1, within=list(sel.body)):
+        seq += m_.as_sequence()
     if not seq:
         raise AnalysisError("Literal._quote_encode: triple-quoted replace sequence not found")
     check_chain(term, "Literal._quote_encode", seq, {"\\", "\r", '"""'}, 'Turtle """..."""', sel)
@@ -272,52 +283,42 @@ def _pred_obj_walks(fn: ast.AST):
 
 
 def _validator_guard(mod, q: str, f: ast.FunctionDef, cur: str) -> str | None:
-    """(iv) every call site of this method is inside `if self.<V>(<same arg>):` where V walks the
-    same parameter with a guard."""
-    params = [a.arg for a in f.args.args]
-    if cur not in params:
+    """(iv) every call site of this method is made for a list head that `self.<V>(<same node>)` has accepted - the call sits inside
+    `if self.<V>(arg):`, or the head is handed down as a parameter by a method every call of which does - where V walks the same
+    parameter with a guard."""
+    from vlib.h_c03 import arg_of, params, validators_of
+
+    if cur not in params(f)[1:]:
         return None
-    pos = params.index(cur)
     cls = q.rsplit(".", 1)[0] if "." in q else None
-    name = f.name
-    sites = []
-    for q2, f2 in mod.functions():
-        for c in own_nodes(f2):
-            if isinstance(c, ast.Call) and isinstance(c.func, ast.Attribute) and c.func.attr == name and isinstance(c.func.value, ast.Name) and c.func.value.id == "self":
-                sites.append((q2, f2, c))
+
+    def sites_of(fn):
+        return [(mod, f2, c) for q2, f2 in mod.functions() for c in own_nodes(f2)
+                if isinstance(c, ast.Call) and isinstance(c.func, ast.Attribute) and c.func.attr == fn.name and isinstance(c.func.value, ast.Name) and c.func.value.id == "self"]
+
+    def guarded_validator(vname: str) -> bool:
+        vq = (cls + "." if cls else "") + vname
+        if not mod.has(vq):
+            return False
+        vf = mod.func(vq)
+        return any(vcur in params(vf) and loops.link_walk_guard(vloop, vcur, vf) for vloop, vcur in loops.link_walk_loops(vf))
+
+    sites = sites_of(f)
     if not sites:
         return None
-    for q2, f2, c in sites:
-        argi = pos - 1  # minus self
-        if argi >= len(c.args):
+    for _, f2, c in sites:
+        if not validators_of(mod, f2, c, arg_of(c, f, cur), sites_of, accept=guarded_validator):
             return None
-        arg = norm(c.args[argi])
-        ok = False
-        for p in mod.parents(c):
-            if isinstance(p, ast.If) and any(c is x for s in p.body for x in ast.walk(s)):
-                t = p.test
-                if isinstance(t, ast.Call) and isinstance(t.func, ast.Attribute) and isinstance(t.func.value, ast.Name) and t.func.value.id == "self" \
-                        and t.args and norm(t.args[0]) == arg:
-                    vname = t.func.attr
-                    vq = (cls + "." if cls else "") + vname
-                    if mod.has(vq):
-                        vf = mod.func(vq)
-                        vparams = [a.arg for a in vf.args.args]
-                        for vloop, vcur in loops.link_walk_loops(vf):
-                            if vcur in vparams and loops.link_walk_guard(vloop, vcur, vf):
-                                ok = True
-            if p is f2:
-                break
-        if not ok:
-            return None
-    return "every call site (%d) is inside `if self.<validator>(same list head)` and the validator's walk of that chain is guarded" % len(sites)
+    return "every call site (%d) is made for a list head that `self.<validator>(same list head)` accepted, and the validator's walk of that chain is guarded" % len(sites)
 
+
+from vlib.core import layer as _layer  # noqa: E402
 
 _run_base = run
 
 
 def run(repo: Repo, rep: Report) -> None:  # noqa: F811
-    _run_base(repo, rep)
+    _layer(rep, _run_base, repo)
     from vlib import memo
 
     rep.rule("C03.f-serializer-memos-key-complete",
@@ -485,7 +486,7 @@ _run_base2 = run
 
 
 def run(repo: Repo, rep: Report) -> None:  # noqa: F811
-    _run_base2(repo, rep)
+    _layer(rep, _run_base2, repo)
     # ------------------------------------------------------------------ (l)
     rep.rule("C03.l-xmlwriter-raw-text-has-no-carriage-return",
              "XMLWriter.text (used by pretty-xml and TriX) writes text either escaped - escape(text, {'\\r': '&#13;'}) - or raw inside CDATA. CDATA cannot carry a character reference, "
@@ -538,7 +539,7 @@ _run_base3 = run
 
 
 def run(repo: Repo, rep: Report) -> None:  # noqa: F811
-    _run_base3(repo, rep)
+    _layer(rep, _run_base3, repo)
     rep.rule("C03.n-relative-form-resolves-back",
              "a serializer that writes an IRI relative to the base by cutting the base off its front (uri.replace(base, '', 1)) keeps that form only if resolving it against the base "
              "gives the IRI back (a comparison with urljoin(base, relative) / a join function), or delegates to a relativize() that does: the cut of <http://e/a/bc> against "
@@ -846,12 +847,13 @@ def rule_s_type_key_only_for_iris(repo: Repo, rep: Report) -> None:
 
 def rule_t_recursion_bounded(repo: Repo, rep: Report) -> None:
     """(t) every call cycle among the methods of a serializer class is cut by a depth bound"""
-    from vlib.h_c03 import ClassGraph, facts_at, net_increment_before, params, short, with_implied, within_bound
+    from vlib.h_c03 import ClassGraph, counter_bounds, facts_at, params, short, with_implied, within_bound
 
     RULE = "C03.t-writer-recursion-depth-bounded"
     rep.rule(RULE,
              "in every serializer class (methods resolved along the MRO, `self.m()` and `super().m()` calls) every cycle of calls contains a call that is made only under a depth bound: "
-             "a comparison `<counter> <= bound` that holds at the call, where the counter is a `self.<attr>` that the caller has raised by then (`self.depth += k` on the way to the call) "
+             "a comparison `<counter> <= bound` that holds at the call - it is tested on the way to the call, or on the way to every call, from inside the cycle, of the method that makes the call - "
+             "where the counter is a `self.<attr>` that has been raised since the comparison (`self.depth += k` on the way to the call) "
              "or a parameter that the call passes on raised (`depth + 1`); and no call inside a cycle drops the counter parameter (which restarts the count). (Calls made only for a term that "
              "is itself a Graph - an N3 formula, not an RDF 1.1 term - are left out.) The nesting depth of "
              "blank nodes and lists in a graph is unbounded, one level of [ ... ], ( ... ), nested element or @list per level of recursion: without the bound a chain of a few hundred "
@@ -912,16 +914,14 @@ def rule_t_recursion_bounded(repo: Repo, rep: Report) -> None:
                             cp.add((a, fw[0]))
                             changed = True
             bounded: set[int] = set()
+            # `self.<attr>` counters: the comparison with the bound and the raise of the counter may sit in different methods of the cycle
+            # (the caller tests, the method it calls raises and descends): a comparison that holds at every call of a method from
+            # inside the cycle holds when that method runs as part of the cycle
+            raised_within_bound = counter_bounds(cg, inner, facts_of)
             for a, c, b in inner:
                 mod, f = cg.defs[a]
                 facts = facts_of[id(c)]
-                ok = False
-                for fact in facts:
-                    for x in ast.walk(fact[0]):
-                        if isinstance(x, ast.Attribute) and isinstance(x.value, ast.Name) and x.value.id == "self":
-                            t = norm(x)
-                            if within_bound(fact, t) and net_increment_before(mod, f, c, t) > 0:
-                                ok = True
+                ok = any(k > 0 for k in raised_within_bound(a, c).values())
                 for p in params(f)[1:]:
                     if any(within_bound(x, p) for x in facts):
                         for (m_, p2) in cp:
@@ -1086,12 +1086,14 @@ def rule_v_typed_node_element_name(repo: Repo, rep: Report) -> None:
 
 def rule_w_no_prefix_after_header(repo: Repo, rep: Report) -> None:
     """(w) Turtle family: nothing is added to the prefix table after it was written"""
-    from vlib.h_c03 import facts_at
+    from vlib.h_c03 import derives_from, reachable_assuming
 
     RULE = "C03.w-no-new-prefix-after-the-header"
     rep.rule(RULE,
              "Turtle-family serializers write the @prefix block once (startDocument, which raises the flag it sets to True there). A method that registers a prefix "
-             "(self.addNamespace(...)) and returns the prefixed name built from it does so only after `if <flag> and <the prefix is not in self.namespaces with this namespace>: return None`: "
+             "(self.addNamespace(...)) and returns the prefixed name built from it cannot reach the registration in the state `<flag> and <the prefix is not in self.namespaces with this namespace>` "
+             "(no path from the entry of the method to the call when every `if` / `while` test is decided, as far as it can be, by: the flag is true, a comparison of a lookup in self.namespaces - "
+             "direct or through locals - says `unequal`; e.g. `if <flag> and <lookup> != namespace: return None` in front of it, the same as two nested ifs, or the call under `if not <flag>`): "
              "a prefix first met while the triples are being written (e.g. for a predicate whose qname was refused in the preprocessing pass because its local name ends in '.', and "
              "whose object's datatype or a later use binds a generated prefix) would be used without a declaration and the document does not parse", floor=2)
     n = 0
@@ -1109,15 +1111,21 @@ def rule_w_no_prefix_after_header(repo: Repo, rep: Report) -> None:
                 if not regs or not returns_pname:
                     continue
                 rep.analysed("%s:%s.%s" % (mod.rel, cname, m))
+                def reads_prefix_table(x: ast.AST) -> bool:
+                    return isinstance(x, ast.Attribute) and x.attr == "namespaces" and norm(x.value) == "self"
+
+                def atom(e: ast.expr, f=f, flags=flags):
+                    """the state that must not register: the header is written (flag) and the prefix is not in it with this namespace (a
+                    lookup in self.namespaces - directly or through locals - compares unequal)"""
+                    if norm(e) in flags:
+                        return True
+                    if isinstance(e, ast.Compare) and len(e.ops) == 1 and isinstance(e.ops[0], (ast.NotEq, ast.Eq)) \
+                            and any(derives_from(f, side, reads_prefix_table) for side in (e.left, e.comparators[0])):
+                        return isinstance(e.ops[0], ast.NotEq)
+                    return None
+
                 for c in regs:
-                    facts = facts_at(mod, f, c)
-                    ok = False
-                    for e, pol in facts:
-                        if not pol and isinstance(e, ast.BoolOp) and isinstance(e.op, ast.And) and any(norm(v) in flags for v in e.values) \
-                                and any(isinstance(v, ast.Compare) and isinstance(v.ops[0], ast.NotEq) and "self.namespaces" in norm(v) for v in e.values):
-                            ok = True
-                        if pol and isinstance(e, ast.UnaryOp) and isinstance(e.op, ast.Not) and norm(e.operand) in flags:
-                            ok = True
+                    ok = bool(flags) and not reachable_assuming(f, c, mod, atom)
                     n += 1
                     rep.ob(RULE, mod, "%s.%s" % (cname, m), c, ok, "not once the header is written, unless the prefix is in it" if ok else
                            "a prefix can be registered and used in a prefixed name after the @prefix block was written (flag %s is not consulted): the name is written with an undeclared prefix" % (flags or ["<none>"])[0], node=c)
@@ -1359,27 +1367,577 @@ _run_base4 = run
 
 
 def run(repo: Repo, rep: Report) -> None:  # noqa: F811
-    _run_base4(repo, rep)
-    rule_o_base_cut(repo, rep)
-    rule_p_jsonld_writer_falsy_terms(repo, rep)
-    rule_q_get_then_store(repo, rep)
-    rule_r_folded_cell_complete(repo, rep)
-    rule_s_type_key_only_for_iris(repo, rep)
-    rule_t_recursion_bounded(repo, rep)
-    rule_u_prefix_not_own_scheme(repo, rep)
-    rule_v_typed_node_element_name(repo, rep)
-    rule_w_no_prefix_after_header(repo, rep)
-    rule_x_registration_agrees_with_label(repo, rep)
-    rule_y_n3_keyword_not_first_in_brackets(repo, rep)
-    rule_z_parsetype_literal_agrees_with_reader(repo, rep)
-    rule_aa_nodeid_is_ncname(repo, rep)
+    _layer(rep, _run_base4, repo)
+    _layer(rep, rule_o_base_cut, repo)
+    _layer(rep, rule_p_jsonld_writer_falsy_terms, repo)
+    _layer(rep, rule_q_get_then_store, repo)
+    _layer(rep, rule_r_folded_cell_complete, repo)
+    _layer(rep, rule_s_type_key_only_for_iris, repo)
+    _layer(rep, rule_t_recursion_bounded, repo)
+    _layer(rep, rule_u_prefix_not_own_scheme, repo)
+    _layer(rep, rule_v_typed_node_element_name, repo)
+    _layer(rep, rule_w_no_prefix_after_header, repo)
+    _layer(rep, rule_x_registration_agrees_with_label, repo)
+    _layer(rep, rule_y_n3_keyword_not_first_in_brackets, repo)
+    _layer(rep, rule_z_parsetype_literal_agrees_with_reader, repo)
+    _layer(rep, rule_aa_nodeid_is_ncname, repo)
+
+
+# ====================================================================== rules ab .. af (pins of F256-F259, F300)
+
+
+def _turtle_family(repo: Repo):
+    return [repo.mod("rdflib.plugins.serializers." + m) for m in ("turtle", "longturtle", "n3", "trig")]
+
+
+def _resolve_method(repo: Repo, mod, cls: str, name: str):
+    """(module, function) of `self.<name>` seen from class `cls` of `mod`: the first definition along the MRO"""
+    for c in repo.typed.mro(mod.name + "." + cls) or [mod.name + "." + cls]:
+        mname, _, cname = c.rpartition(".")
+        if mname in repo.modules and repo.modules[mname].has(cname + "." + name):
+            return repo.modules[mname], repo.modules[mname].func(cname + "." + name)
+    return None
+
+
+def _cmp_with(e: ast.AST, name: str):
+    """(operator, other side) of a two-sided comparison one side of which is the local `name`"""
+    if isinstance(e, ast.Compare) and len(e.ops) == 1:
+        l, r = e.left, e.comparators[0]
+        if isinstance(l, ast.Name) and l.id == name:
+            return e.ops[0], r
+        if isinstance(r, ast.Name) and r.id == name and isinstance(e.ops[0], (ast.Eq, ast.NotEq, ast.Is, ast.IsNot)):
+            return e.ops[0], l
+    return None
+
+
+def _walk_sentinels(loop: ast.While, cur: str) -> list[str]:
+    """the constants at which the walk ends: `cur != K` conjuncts of the loop test (K not a local)"""
+    from vlib.h_c03 import split_fact
+
+    out = []
+    for e, pol in split_fact(loop.test, True):
+        cw = _cmp_with(e, cur)
+        if cw is None or isinstance(cw[1], (ast.Name, ast.Constant)):
+            continue
+        if (isinstance(cw[0], (ast.NotEq, ast.IsNot)) and pol) or (isinstance(cw[0], (ast.Eq, ast.Is)) and not pol):
+            out.append(norm(cw[1]))
+    return out
+
+
+def _walk_stops_at(loop: ast.While, cur: str, sentinel: str) -> bool:
+    from vlib.h_c03 import terminates, tri_eval
+
+    if sentinel in _walk_sentinels(loop, cur):
+        return True
+    first = loop.body[0] if loop.body else None
+    if isinstance(first, ast.If) and terminates(first.body):  # while ...: if <test that holds when cur == K>: break
+
+        def atom(e):
+            cw = _cmp_with(e, cur)
+            if cw is not None and norm(cw[1]) == sentinel:
+                if isinstance(cw[0], (ast.Eq, ast.Is)):
+                    return True
+                if isinstance(cw[0], (ast.NotEq, ast.IsNot)):
+                    return False
+            return None
+        return tri_eval(first.test, atom) is True
+    return False
+
+
+def rule_ab_writer_stops_with_validator(repo: Repo, rep: Report) -> None:
+    """(ab) clause (iv) of (a) holds for the part of the chain the validator walked, and no further"""
+    from vlib.h_c03 import ClassGraph, arg_of, params, short, validators_of
+
+    RULE = "C03.ab-list-writer-stops-where-its-validator-stopped"
+    rep.rule(RULE,
+             "a serializer method that walks an rdf:rest chain from a parameter and is called only under `if self.<validator>(same node)` (clause iv of C03.a) is covered by the validator for "
+             "the cells the validator looked at: where the validator's own walk ends at a constant (`while cell != RDF.nil`), the writer's walk ends there too (the same comparison is a conjunct "
+             "of its loop test, or its first statement leaves the loop on it). `while cell:` goes on for as long as there is an rdf:rest: with `rdf:nil rdf:first 3 ; rdf:rest rdf:nil` in "
+             "the graph every ( ... ) gets the invented member 3 and serialize() does not return", floor=2)
+    seen: set[tuple[int, int]] = set()
+    n = 0
+    for cls in sorted(c for c in repo.typed.classes if c.startswith("rdflib.plugins.serializers.")):
+        cg = ClassGraph(repo, cls)
+        for a, call, b in cg.edges:
+            bmod, bf = cg.defs[b]
+            walks = [(l, c) for l, c in loops.link_walk_loops(bf) if c in params(bf)[1:]]
+            if not walks:
+                continue
+            amod, af = cg.defs[a]
+            for loop, cur in walks:
+                arg = arg_of(call, bf, cur)
+                # (the `if self.<validator>(node)` may sit in this caller or, the node being handed down as a parameter, in every caller of it)
+                vs = validators_of(amod, af, call, arg, lambda fn, cg=cg: [(cg.defs[x][0], cg.defs[x][1], c_) for x, c_, y in cg.edges if cg.defs[y][1] is fn])
+                v = cg.resolve(sorted(vs)[0]) if vs is not None and len(vs) == 1 else None
+                if v is None:
+                    continue  # not a validated walk: C03.a asks for a guard of its own
+                vmod, vf = cg.defs[v]
+                if (id(loop), id(vf)) in seen:
+                    continue
+                seen.add((id(loop), id(vf)))
+                rep.analysed("%s:%s" % (bmod.rel, short(b)), "%s:%s" % (vmod.rel, short(v)))
+                n += 1
+                vwalks = [(vl, vc) for vl, vc in loops.link_walk_loops(vf) if vc in params(vf)[1:]]
+                if not any(_walk_sentinels(vl, vc) for vl, vc in vwalks):
+                    rep.ob(RULE, bmod, short(b), "while %s  [validator %s]" % (norm(loop.test), short(v)), True,
+                           "the validator's walk does not end at a constant (it follows the chain for as long as there is an rdf:rest): nothing to agree on", node=loop)
+                for vloop, vcur in vwalks:
+                    for k in _walk_sentinels(vloop, vcur):
+                        ok = _walk_stops_at(loop, cur, k)
+                        rep.ob(RULE, bmod, short(b), "while %s  [validator %s walks while %s]" % (norm(loop.test), short(v), norm(vloop.test)), ok,
+                               "ends at %s like the validator" % k if ok else
+                               "%s has checked the cells up to %s only, this walk goes on past it for as long as %s has an rdf:rest: rdf:first / rdf:rest triples about %s are written as "
+                               "further members of every list (and a chain that leads back to %s is walked for ever)" % (short(v), k, cur, k, k), node=loop)
+    if n < 2:
+        raise AnalysisError("validated list walks (TurtleSerializer / LongTurtleSerializer doList under isValidList) not found")
+
+
+def rule_ac_marked_only_once(repo: Repo, rep: Report) -> None:
+    """(ac) a node gets its description once: whoever marks it done knows that it was not"""
+    from vlib.h_c03 import ClassGraph, arg_of, facts_at, local_defs, params, returns_falsy, tri_eval, validators_of
+
+    RULE = "C03.ac-node-marked-written-only-once"
+    rep.rule(RULE,
+             "Turtle-family serializers (turtle, longturtle, n3, trig): `self.subjectDone(x)` says that the description of x is written at this place (as a statement, inline as [ ... ], "
+             "or as an anonymous cell of ( ... )); it is reached only for a node known not to be in the done-set yet: by a test at the call (`x in self._serialized` / self.isDone(x) false), "
+             "or - x being a parameter - at every call site of the method; for the cursor of an rdf:rest walk the first cell is such a parameter and the later cells are covered by the "
+             "validator the walk is called under, whose walk rejects a cell (other than the one it started from) that is in the done-set. A list one of whose members leads back into the "
+             "list (`_:c1 rdf:first _:x ; rdf:rest _:c2 . _:x :p _:c2`) may be begun at _:c2: folded into ( ... ) as well, _:c2 is written a second time as an anonymous cell and the "
+             "graph read back has other triples. (A node that is itself a Graph - an N3 formula - is left out.)", floor=10)
+    fam = _turtle_family(repo)
+    tm = fam[0]
+    mark = tm.func("RecursiveSerializer.subjectDone")
+    mp = params(mark)[1]
+    done = None
+    for x in own_nodes(mark):
+        if isinstance(x, ast.Subscript) and isinstance(x.ctx, ast.Store) and norm(x.slice) == mp and isinstance(x.value, ast.Attribute) and norm(x.value.value) == "self":
+            done = norm(x.value)
+    if done is None:
+        raise AnalysisError("RecursiveSerializer.subjectDone: the done-set it stores into was not found")
+    preds = set()
+    for m, f in tm.methods("RecursiveSerializer").items():
+        ps = params(f)
+        rets = [s for s in f.body if isinstance(s, ast.Return)]
+        if len(ps) == 2 and rets and isinstance(rets[-1].value, ast.Compare) and len(rets[-1].value.ops) == 1 and isinstance(rets[-1].value.ops[0], ast.In) \
+                and norm(rets[-1].value.left) == ps[1] and norm(rets[-1].value.comparators[0]) == done:
+            preds.add(m)
+
+    def done_atom(e: ast.AST, xt: str):
+        """True / False if e says `xt is done` / `xt is not done`, else None"""
+        if isinstance(e, ast.Compare) and len(e.ops) == 1 and norm(e.left) == xt and norm(e.comparators[0]) == done:
+            if isinstance(e.ops[0], ast.In):
+                return True
+            if isinstance(e.ops[0], ast.NotIn):
+                return False
+        if isinstance(e, ast.Call) and isinstance(e.func, ast.Attribute) and e.func.attr in preds and norm(e.func.value) == "self" and len(e.args) == 1 and norm(e.args[0]) == xt:
+            return True
+        return None
+
+    # the `self.m(...)` / `super().m(...)` calls of the family, each resolved from every concrete class that has the caller
+    edges: list[tuple] = []
+    got: set[tuple[int, int]] = set()
+    for cls in sorted(c for c in repo.typed.classes if c.rsplit(".", 1)[0] in {m.name for m in fam}):
+        cg = ClassGraph(repo, cls)
+        for a, call, b in cg.edges:
+            if (id(call), id(cg.defs[b][1])) not in got:
+                got.add((id(call), id(cg.defs[b][1])))
+                edges.append((cg.defs[a][0], cg.defs[a][1], call, cg.defs[b][1]))
+
+    def sites_of(f):
+        return [(m_, m_.qual_of(fa), fa, c_) for m_, fa, c_, fb in edges if fb is f]
+
+    def cursor_of(f, name: str):
+        return [l for l, c in loops.link_walk_loops(f) if c == name]
+
+    def known(mod, f, node, x: ast.AST, depth: int, visited: frozenset):
+        xt = norm(x)
+        for e, pol in facts_at(mod, f, node):
+            d = done_atom(e, xt)
+            if d is not None and d != pol:
+                return "tested: not in %s here" % done
+        if depth == 0 or not isinstance(x, ast.Name) or x.id not in params(f)[1:]:
+            return None
+        if any(isinstance(k, ast.Name) and k.id == x.id and isinstance(k.ctx, ast.Store) for k in own_nodes(f)) and not cursor_of(f, x.id):
+            return None
+        if (id(f), x.id) in visited:
+            return "(by the other call sites)"
+        visited = visited | {(id(f), x.id)}
+        sites = sites_of(f)
+        if not sites:
+            return None
+        for mod2, q2, f2, c in sites:
+            a = arg_of(c, f, x.id)
+            if a is None or known(mod2, f2, c, a, depth - 1, visited) is None:
+                return None
+        return "a parameter: each of the %d call site(s) of %s passes a node known not to be done" % (len(sites), f.name)  # type: ignore[attr-defined]
+
+    n = 0
+    validators: dict[int, tuple] = {}
+    for mod in fam:
+        for q, f in mod.functions():
+            for c in own_nodes(f):
+                if not (isinstance(c, ast.Call) and norm(c.func) == "self.subjectDone" and len(c.args) == 1):
+                    continue
+                x = c.args[0]
+                if isinstance(x, ast.Call) and norm(x.func).split(".")[-1] == "cast" and len(x.args) == 2:
+                    x = x.args[1]
+                n += 1
+                rep.analysed("%s:%s" % (mod.rel, q))
+                if any(pol and isinstance(e, ast.Call) and norm(e.func) == "isinstance" and len(e.args) == 2 and norm(e.args[0]) == norm(x) and norm(e.args[1]) in ("Graph", "QuotedGraph")
+                       for e, pol in facts_at(mod, f, c)):
+                    rep.ob(RULE, mod, q, c, True, "a formula (a Graph used as a term): not an RDF 1.1 term", node=c)
+                    continue
+                why = known(mod, f, c, x, 3, frozenset())
+                if isinstance(x, ast.Name) and cursor_of(f, x.id):
+                    # the cells after the first: every call site is under a validator of the chain
+                    guarded = True
+                    for mod2, q2, f2, call in sites_of(f):
+                        a = arg_of(call, f, x.id)
+                        vs = validators_of(mod2, f2, call, a, lambda fn: [(m_, fa, c_) for m_, q_, fa, c_ in sites_of(fn)])
+                        ress = [_resolve_method(repo, mod2, q2.rsplit(".", 1)[0], v_) for v_ in sorted(vs)] if vs and "." in q2 else [None]
+                        for res in ress:
+                            if res is None:
+                                guarded = False
+                            else:
+                                validators.setdefault(id(res[1]), (res[0], res[0].qual_of(res[1]), res[1]))
+                    if why is not None:
+                        why = ("the first cell: " + why + "; the later cells: by the validator the walk is called under") if guarded else None
+                rep.ob(RULE, mod, q, c, why is not None, why or
+                       "%s is marked (and written) here although nothing on the way says it is not in %s already: a node that has its description elsewhere gets a second one "
+                       "(for a blank node written inline or as a list cell: a second, different node after parsing)" % (norm(x), done), node=c)
+    for vmod, vq, vf in validators.values():
+        rep.analysed("%s:%s" % (vmod.rel, vq))
+        ok = False
+        nwalk = 0
+        for vloop, vcur in loops.link_walk_loops(vf):
+            if vcur not in params(vf)[1:]:
+                continue
+            nwalk += 1
+            heads = {k.id for k in own_nodes(vf) if isinstance(k, ast.Name) and isinstance(k.ctx, ast.Store) and k.id != vcur
+                     and (lambda ds: bool(ds) and all(isinstance(d, ast.Name) and d.id == vcur for d in ds))(local_defs(vf, k.id))}
+
+            def atom(e, vcur=vcur, heads=heads):
+                d = done_atom(e, vcur)
+                if d is not None:
+                    return d
+                cw = _cmp_with(e, vcur)
+                if cw is not None and isinstance(cw[1], ast.Name) and cw[1].id in heads:
+                    if isinstance(cw[0], (ast.IsNot, ast.NotEq)):
+                        return True  # a cell after the first
+                    if isinstance(cw[0], (ast.Is, ast.Eq)):
+                        return False
+                return None
+            for i in ast.walk(vloop):
+                if isinstance(i, ast.If) and returns_falsy(i.body) and tri_eval(i.test, atom) is True:
+                    ok = True
+        if not nwalk:
+            raise AnalysisError("%s: the validator's walk was not found" % vq)
+        n += 1
+        rep.ob(RULE, vmod, vq, "a cell after the first that is in %s already is rejected" % done, ok,
+               "by a test of the walk" if ok else
+               "no test of the walk answers False for a later cell that is written already (in %s): a list begun in the middle, through a member that leads back to one of its cells, is folded "
+               "into ( ... ) and that cell, already written with its label, is written again as an anonymous cell - the graph read back has other triples" % done, node=vf)
+    if n < 7:
+        raise AnalysisError("subjectDone call sites of the Turtle-family serializers not found")
+
+
+def rule_ad_no_raw_xml_under_default_namespace(repo: Repo, rep: Report) -> None:
+    """(ad) raw parseType="Literal" content is read in the scope of the document's namespace declarations"""
+    from vlib.h_c03 import facts_at, local_defs, params
+
+    RULE = "C03.ad-parsetype-literal-not-under-a-default-namespace"
+    rep.rule(RULE,
+             "pretty-xml: the lexical form of an rdf:XMLLiteral written raw under parseType=\"Literal\" stands inside the root element, in the scope of every namespace the class declares there "
+             "with `writer.namespaces(<dict>)`. The keys of that dict are prefixes from compute_qname_strict(), and '' (the default namespace) is one of them unless every store into the dict "
+             "is under a test that the key is non-empty; so the raw write is made only where a flag that serialize() computes as `'' in <that dict>`, after the last store into it, is known "
+             "to be false. Under xmlns=\"http://e/\" the literal '<b>x</b>' is read back as '<b xmlns=\"http://e/\">x</b>'", floor=1)
+    rx = repo.mod("rdflib.plugins.serializers.rdfxml")
+    n = 0
+    for q, f in rx.functions():
+        if "." not in q:
+            continue
+        cls = q.split(".")[0]
+        ps = params(f)
+        raws = [c for c in own_nodes(f) if isinstance(c, ast.Call) and isinstance(c.func, ast.Attribute) and c.func.attr == "write" and norm(c.func.value).endswith("stream")
+                and len(c.args) == 1 and isinstance(c.args[0], ast.Name) and c.args[0].id in ps]
+        for c in raws:
+            facts = facts_at(rx, f, c)
+            if not any(pol and "XMLLiteral" in norm(e) for e, pol in facts):
+                continue
+            decl = None
+            for m, g in rx.methods(cls).items():
+                for k in own_nodes(g):
+                    if isinstance(k, ast.Call) and isinstance(k.func, ast.Attribute) and k.func.attr == "namespaces" and k.args:
+                        for x in ast.walk(k.args[0]):
+                            if isinstance(x, ast.Name) and any(isinstance(v, ast.Dict) or (isinstance(v, ast.Call) and norm(v.func) == "dict") for v in local_defs(g, x.id)):
+                                decl = (m, g, x.id)
+            if decl is None:
+                raise AnalysisError("%s: the dict of namespace declarations passed to writer.namespaces() was not found" % cls)
+            m, g, D = decl
+            rep.analysed("%s:%s" % (rx.rel, q), "%s:%s.%s" % (rx.rel, cls, m))
+            stores = [s for s in own_nodes(g) if isinstance(s, ast.Subscript) and isinstance(s.ctx, ast.Store) and isinstance(s.value, ast.Name) and s.value.id == D]
+
+            def key_nonempty(s):
+                k = s.slice
+                if isinstance(k, ast.Constant):
+                    return bool(k.value)
+                for e, pol in facts_at(rx, g, s):
+                    if pol and norm(e) == norm(k):
+                        return True
+                    if isinstance(e, ast.Compare) and len(e.ops) == 1 and norm(e.left) == norm(k) and isinstance(e.comparators[0], ast.Constant) and e.comparators[0].value == "" \
+                            and ((isinstance(e.ops[0], ast.NotEq) and pol) or (isinstance(e.ops[0], ast.Eq) and not pol)):
+                        return True
+                return False
+            open_ = [s for s in stores if not key_nonempty(s)]
+            n += 1
+            if not open_:
+                rep.ob(RULE, rx, q, c, True, "no store into %s can have the empty prefix as its key: the document never declares a default namespace" % D, node=c)
+                continue
+            last = max(s.lineno for s in stores)
+            flags = {}  # `self.<a>` -> its truth value when a default namespace is declared
+            for a in own_nodes(g):
+                if isinstance(a, ast.Assign) and len(a.targets) == 1 and isinstance(a.targets[0], ast.Attribute) and norm(a.targets[0].value) == "self" and a.lineno > last \
+                        and isinstance(a.value, ast.Compare) and len(a.value.ops) == 1 and isinstance(a.value.left, ast.Constant) and a.value.left.value == "" \
+                        and isinstance(a.value.comparators[0], ast.Name) and a.value.comparators[0].id == D and isinstance(a.value.ops[0], (ast.In, ast.NotIn)):
+                    flags[norm(a.targets[0])] = isinstance(a.value.ops[0], ast.In)
+            ok = any(isinstance(e, ast.Attribute) and norm(e) in flags and pol != flags[norm(e)] for e, pol in facts)
+            rep.ob(RULE, rx, q, "%s  [declarations: %s in %s.%s]" % (norm(c), D, cls, m), ok,
+                   "only when no default namespace is declared" if ok else
+                   "%s.%s can declare a default namespace (%s is stored under a prefix that may be '': `%s`), and the XMLLiteral is written raw without asking: with the empty prefix bound to "
+                   "<http://e/> and a predicate in that namespace, Literal('<b>x</b>', datatype=rdf:XMLLiteral) comes back as '<b xmlns=\"http://e/\">x</b>'"
+                   % (cls, m, D, norm(open_[0])), node=c)
+    if not n:
+        raise AnalysisError("PrettyXMLSerializer.predicate: raw write of an XMLLiteral under parseType=Literal not found")
+
+
+_ABS_YES = ("http://e/doc?", "urn:x:y", "a+b-c.d:e")
+_ABS_NO = ("", "doc", "#f", "?q", "/p:q", "//h/p:q", "./a:b", "a/b:c")
+
+
+def rule_ae_reader_resolves_relative_only(repo: Repo, rep: Report) -> None:
+    """(ae) urljoin is for relative references"""
+    from vlib.h_c03 import derives_from, facts_at, local_defs, params
+
+    RULE = "C03.ae-reader-resolves-only-relative-references"
+    rep.rule(RULE,
+             "in the readers (rdflib/plugins/parsers, the JSON-LD helpers they share) a function that resolves a reference it was given with urllib's urljoin(base, reference) and returns the "
+             "result does so only where the reference is known not to begin with a scheme: an earlier `if <regex>.match(reference): return ...` with a module-level regex that accepts "
+             "exactly `scheme:` prefixes, or `if urlsplit(reference).scheme: return ...`. An IRI is to be taken as written; urljoin, given a base of the same scheme, takes it to pieces "
+             "and puts it together again without an empty query or fragment: <http://e/doc?> written by the RDF/XML serializer was read back as <http://e/doc>", floor=3)
+    # (shared/jsonld/context.py is left out: it uses urljoin for the locations of context documents it fetches, which are not terms of the graph)
+    mods = [repo.mod(m) for m in sorted(repo.modules) if m.startswith("rdflib.plugins.parsers.")] + [repo.mod("rdflib.plugins.shared.jsonld.util")]
+    n = 0
+    for mod in mods:
+        regexes: dict[str, str] = {}
+        for st in mod.tree.body:
+            if isinstance(st, ast.Assign) and len(st.targets) == 1 and isinstance(st.targets[0], ast.Name) and isinstance(st.value, ast.Call) and norm(st.value.func) in ("re.compile", "compile") \
+                    and st.value.args and isinstance(st.value.args[0], ast.Constant) and isinstance(st.value.args[0].value, str):
+                regexes[st.targets[0].id] = st.value.args[0].value
+
+        def scheme_regex(name: str) -> bool:
+            if name not in regexes:
+                return False
+            try:
+                rx_ = re.compile(regexes[name])
+            except re.error:
+                raise AnalysisError("%s: %s does not compile" % (mod.rel, name))
+            return all(rx_.match(s) for s in _ABS_YES) and not any(rx_.match(s) for s in _ABS_NO)
+
+        for q, f in mod.functions():
+            ps = set(params(f))
+            for c in own_nodes(f):
+                if not (isinstance(c, ast.Call) and norm(c.func).split(".")[-1] == "urljoin" and len(c.args) >= 2):
+                    continue
+                ref = c.args[1]
+                # the names on the way from the reference back to a parameter
+                chain: set[str] = set()
+                todo = [x.id for x in ast.walk(ref) if isinstance(x, ast.Name)]
+                while todo:
+                    nm = todo.pop()
+                    if nm in chain:
+                        continue
+                    chain.add(nm)
+                    if nm not in ps:
+                        for v in local_defs(f, nm):
+                            todo += [x.id for x in ast.walk(v) if isinstance(x, ast.Name)]
+                given = chain & ps - {"self"}
+                if not given:
+                    continue
+                if not any(isinstance(r, ast.Return) and r.value is not None and derives_from(f, r.value, lambda k: k is c) for r in own_nodes(f)):
+                    continue
+                n += 1
+                rep.analysed("%s:%s" % (mod.rel, q))
+                ok = False
+                for e, pol in facts_at(mod, f, c):
+                    if pol:
+                        continue
+                    if isinstance(e, ast.Call) and isinstance(e.func, ast.Attribute) and e.func.attr == "match" and isinstance(e.func.value, ast.Name) and scheme_regex(e.func.value.id) \
+                            and len(e.args) == 1 and isinstance(e.args[0], ast.Name) and e.args[0].id in chain:
+                        ok = True
+                    if isinstance(e, ast.Attribute) and e.attr == "scheme" and derives_from(
+                            f, e.value, lambda k: isinstance(k, ast.Call) and norm(k.func).split(".")[-1] in ("urlsplit", "urlparse") and k.args and isinstance(k.args[0], ast.Name) and k.args[0].id in given):
+                        ok = True
+                rep.ob(RULE, mod, q, c, ok, "only for a reference without a scheme" if ok else
+                       "the reference (%s) goes through urljoin whether or not it is an IRI already: under a base of the same scheme urljoin('http://e/x', 'http://e/doc?') gives 'http://e/doc' - "
+                       "the empty query (or fragment) of an IRI the serializer wrote as it is, is gone after parsing" % norm(ref), node=c)
+    if n < 3:
+        raise AnalysisError("the resolving functions of the readers (RDFXMLHandler.absolutize, jsonld util.norm_url) were not found")
+
+
+def rule_af_symbol_key_agrees_with_reader(repo: Repo, rep: Report) -> None:
+    """(af) a key that happens to be a term is read with all that the term says"""
+    from vlib.h_c03 import facts_at, namedtuple_fields, params
+
+    RULE = "C03.af-jsonld-key-that-is-a-term-says-nothing-more"
+    rep.rule(RULE,
+             "JSON-LD: for a key that is a term of the context the reader (Parser methods, and the Context methods they hand the term to) consults fields of the Term beyond the IRI it stands "
+             "for (id, name): type, container, language, reverse, the scoped context ... (a field read only under `<X> in term.container` counts as container). The serializer, where it has "
+             "found no term that fits the value and falls back on the symbol of the predicate (`k = context.to_symbol(p)`), looks that symbol up (`t = context.terms.get(k)`) and goes back to "
+             "the IRI of the predicate as the key (`k = p`) under a test that reads every one of those fields of t: a field it does not ask about is applied by the reader to a value that "
+             "was not written for it. With {\"@language\": \"de\", \"q\": {\"@language\": null}} the literal \"x\"@de was written as \"q\": \"x\" and read back without its language", floor=5)
+    cm = repo.mod("rdflib.plugins.shared.jsonld.context")
+    fields = set(namedtuple_fields(cm, "Term"))
+    ident = {"id", "name"}
+    jp = repo.mod("rdflib.plugins.parsers.jsonld")
+
+    def term_names(f) -> set[str]:
+        out = set()
+        a = f.args
+        for x in a.posonlyargs + a.args + a.kwonlyargs:
+            if x.annotation is not None and re.search(r"\bTerm\b", norm(x.annotation)):
+                out.add(x.arg)
+        for k in own_nodes(f):
+            if isinstance(k, ast.Assign) and len(k.targets) == 1 and isinstance(k.targets[0], ast.Name) and isinstance(k.value, ast.Call) and isinstance(k.value.func, ast.Attribute) \
+                    and (k.value.func.attr == "find_term" or (k.value.func.attr == "get" and isinstance(k.value.func.value, ast.Attribute) and k.value.func.value.attr == "terms")):
+                out.add(k.targets[0].id)
+        return out
+
+    def reads(mod, f, names: set[str]):
+        for k in own_nodes(f, include_nested=True):
+            if isinstance(k, ast.Attribute) and isinstance(k.ctx, ast.Load) and isinstance(k.value, ast.Name) and k.value.id in names and k.attr in fields:
+                sub = any(pol and isinstance(e, ast.Compare) and len(e.ops) == 1 and isinstance(e.ops[0], ast.In) and norm(e.comparators[0]) == k.value.id + ".container"
+                          for e, pol in facts_at(mod, f, k))
+                yield k.attr, k, sub
+
+    required: dict[str, str] = {}
+    for m, f in jp.methods("Parser").items():
+        names = term_names(f)
+        if not names:
+            continue
+        rep.analysed("%s:Parser.%s" % (jp.rel, m))
+        for fld, node, sub in reads(jp, f, names):
+            if not sub and fld not in ident:
+                required.setdefault(fld, "Parser.%s: %s" % (m, norm(node)))
+        for c in own_nodes(f, include_nested=True):  # the term handed on to a method of the context
+            if isinstance(c, ast.Call) and isinstance(c.func, ast.Attribute) and cm.has("Context." + c.func.attr):
+                g = cm.func("Context." + c.func.attr)
+                gp = params(g)[1:]
+                for i, a in enumerate(c.args):
+                    if isinstance(a, ast.Name) and a.id in names and i < len(gp):
+                        for fld, node, sub in reads(cm, g, {gp[i]}):
+                            if not sub and fld not in ident:
+                                required.setdefault(fld, "Context.%s: %s" % (c.func.attr, norm(node)))
+    if not {"type", "container", "language"} <= set(required):
+        raise AnalysisError("JSON-LD reader: the reads of Term.type / container / language were not found (found %s)" % sorted(required))
+    jm = repo.mod("rdflib.plugins.serializers.jsonld")
+    n = 0
+    for m, f in jm.methods("Converter").items():
+        ps = set(params(f))
+        for k in own_nodes(f):
+            if not (isinstance(k, ast.Assign) and len(k.targets) == 1 and isinstance(k.targets[0], ast.Name) and isinstance(k.value, ast.Call) and isinstance(k.value.func, ast.Attribute)
+                    and k.value.func.attr == "to_symbol" and len(k.value.args) == 1 and isinstance(k.value.args[0], ast.Name) and k.value.args[0].id in ps):
+                continue
+            key, pred = k.targets[0].id, k.value.args[0].id
+            if not any(isinstance(x, ast.Subscript) and isinstance(x.ctx, ast.Store) and isinstance(x.slice, ast.Name) and x.slice.id == key for x in own_nodes(f)):
+                continue  # (a symbol that is written as a value, not used as the key of the node object)
+            looked = {t.targets[0].id for t in own_nodes(f) if isinstance(t, ast.Assign) and len(t.targets) == 1 and isinstance(t.targets[0], ast.Name) and isinstance(t.value, ast.Call)
+                      and isinstance(t.value.func, ast.Attribute) and t.value.func.attr == "get" and isinstance(t.value.func.value, ast.Attribute) and t.value.func.value.attr == "terms"
+                      and t.value.args and isinstance(t.value.args[0], ast.Name) and t.value.args[0].id == key}
+            tested: set[str] = set()
+            for i in own_nodes(f):
+                if isinstance(i, ast.If) and any(isinstance(s, ast.Assign) and len(s.targets) == 1 and norm(s.targets[0]) == key and isinstance(s.value, ast.Name) and s.value.id == pred for s in i.body):
+                    tested |= {x.attr for x in ast.walk(i.test) if isinstance(x, ast.Attribute) and isinstance(x.value, ast.Name) and x.value.id in looked}
+            rep.analysed("%s:Converter.%s" % (jm.rel, m))
+            examples = {
+                "language": "with {\"@language\": \"de\", \"q\": {\"@language\": null}} the literal \"x\"@de is written as \"q\": \"x\" and read back without its language",
+                "reverse": "with {\"@vocab\": \"http://e/\", \"knows\": {\"@reverse\": \"http://e/knows\"}} the triple <a> <http://e/knows> <b> is written under the key \"knows\" and read back as <b> <http://e/knows> <a>",
+                "context": "with {\"@base\": \"http://e/\", \"@vocab\": \"http://e/\", \"q\": {\"@id\": \"http://e/q\", \"@language\": \"de\", \"@context\": {\"@base\": \"http://other/\"}}} "
+                           "the triple <http://e/a> <http://e/q> <http://e/x> is written as \"q\": {\"@id\": \"/x\"} and read back with the object <http://other/x>",
+                "type": "a plain literal written under a term with \"@type\": \"@id\" is read back as an IRI",
+                "container": "a node reference written under a term with \"@container\": \"@list\" is read back as a list",
+            }
+            for fld in sorted(required):
+                ok = fld in tested
+                n += 1
+                rep.ob(RULE, jm, "Converter." + m, "%s = to_symbol(%s): the term of that name is asked for its `%s`  [reader: %s]" % (key, pred, fld, required[fld]), ok,
+                       "the IRI of the predicate is the key when it is set" if ok else
+                       "the symbol of the predicate stays the key whatever the `%s` of the term with that name: %s" % (fld, examples.get(fld, "the reader applies it to a value that was not written for it")), node=k)
+    if n < 3:
+        raise AnalysisError("Converter.add_to_node: the fallback `key = context.to_symbol(predicate)` was not found")
+
+
+def rule_ag_unescaped_text_has_no_markup(repo: Repo, rep: Report) -> None:
+    """(ag) the other half of (l): what XMLWriter.text writes outside CDATA is escaped, or known to need no escaping"""
+    from vlib.h_c03 import facts_at
+
+    RULE = "C03.ag-xmlwriter-text-is-escaped-or-has-no-markup"
+    rep.rule(RULE,
+             "XMLWriter.text (pretty-xml, TriX): every stream.write(...) of something computed from the text passes it through escape(), or stands between the writes of '<![CDATA[' and "
+             "']]>' (rule l), or is made where the text is known to contain none of '&', '<', '>' and CR (a fast path that looks for '&', '<' and CR only writes Literal('a]]>b') raw, and "
+             "']]>' is not allowed in character data: the document does not parse)", floor=2)
+    xw = repo.mod("rdflib.plugins.serializers.xmlwriter")
+    tf = xw.func("XMLWriter.text")
+    rep.analysed("%s:XMLWriter.text" % xw.rel)
+    tparam = tf.args.args[1].arg
+    n = 0
+    for c in own_nodes(tf):
+        if not (isinstance(c, ast.Call) and norm(c.func).endswith("stream.write") and len(c.args) == 1 and any(isinstance(x, ast.Name) and x.id == tparam for x in ast.walk(c.args[0]))):
+            continue
+        n += 1
+        if any(isinstance(x, ast.Call) and norm(x.func).split(".")[-1] == "escape" and x.args and any(isinstance(y, ast.Name) and y.id == tparam for y in ast.walk(x.args[0])) for x in ast.walk(c.args[0])):
+            rep.ob(RULE, xw, "XMLWriter.text", c, True, "escaped", node=c)
+            continue
+        st = _stmt_of(xw, c)
+        par = xw.parent.get(id(st))
+        bracketed = False
+        for field in ("body", "orelse"):
+            lst = getattr(par, field, None)
+            if isinstance(lst, list) and any(st is x for x in lst):
+                i = [k for k, x in enumerate(lst) if x is st][0]
+                before = norm(lst[i - 1]) if i > 0 else ""
+                after = norm(lst[i + 1]) if i + 1 < len(lst) else ""
+                bracketed = "<![CDATA[" in before and "]]>" in after and norm(c.args[0]) == tparam
+        if bracketed:
+            rep.ob(RULE, xw, "XMLWriter.text", c, True, "inside a CDATA section (rule l says when)", node=c)
+            continue
+        facts = facts_at(xw, tf, c)
+        missing = [m for m in ("&", "<", ">", "\r") if not any(_asserts_absent(x, m, tparam) for x in facts) and not (m == ">" and any(_asserts_absent(x, "]]>", tparam) for x in facts))]
+        rep.ob(RULE, xw, "XMLWriter.text", c, not missing, "the text has nothing to escape here" if not missing else
+               "the text is written without escape() where it may contain %s: %s" % (", ".join(repr(m) for m in missing), "; ".join(
+                   {"&": "'a&b' is an undefined entity reference", "<": "'a<b' opens an element", ">": "']]>' (Literal('a]]>b')) is not allowed in character data, the document does not parse",
+                    "\r": "a carriage return is read back as a line feed"}[m] for m in missing)), node=c)
+    if n < 2:
+        raise AnalysisError("XMLWriter.text: the writes of the text were not found")
+
+
+_run_base5 = run
+
+
+def run(repo: Repo, rep: Report) -> None:  # noqa: F811
+    _layer(rep, _run_base5, repo)
+    _layer(rep, rule_ab_writer_stops_with_validator, repo)
+    _layer(rep, rule_ac_marked_only_once, repo)
+    _layer(rep, rule_ad_no_raw_xml_under_default_namespace, repo)
+    _layer(rep, rule_ae_reader_resolves_relative_only, repo)
+    _layer(rep, rule_af_symbol_key_agrees_with_reader, repo)
+    _layer(rep, rule_ag_unescaped_text_has_no_markup, repo)
 
 
 _run_before_borrow = run
 
 
 def run(repo: Repo, rep: Report) -> None:  # noqa: F811
-    _run_before_borrow(repo, rep)
+    _layer(rep, _run_before_borrow, repo)
     from vlib.core import borrow
 
     borrow(repo, rep, "C03", "C17", ('C17.a',))
